@@ -66,3 +66,101 @@ package gateway
 //@   ensures refused-means-empty: err != nil ==> hostname == ""
 //@   ensures under-root-domain-gives-label: (err == nil && isRoot(g, lower(substr(host, indexOf(host, ".") + 1, len(host) - indexOf(host, ".") - 1)))) ==> hostname == lower(substr(host, 0, indexOf(host, ".")))
 //@   ensures otherwise-whole-host: (err == nil && !isRoot(g, lower(substr(host, indexOf(host, ".") + 1, len(host) - indexOf(host, ".") - 1)))) ==> hostname == lower(host)
+
+// ---- C35: client-asserted forwarding headers. The outbound header map is tracked as a ghost log of the
+// calls made on it: which names were deleted before SetXForwarded, and what the gateway set afterwards
+// (http.Header canonicalises names on Del/Set; httputil's Rewrite mode has already removed inbound
+// Forwarded / X-Forwarded-* headers before proxyRewrite runs: both are library behaviour, assumed).
+//@ func (g *Gateway) proxyRewrite(preq *httputil.ProxyRequest)
+//@   safety off
+//@   opt frame=off
+//@   requires preq != nil && preq.In != nil && preq.Out != nil && preq.Out.URL != nil
+//@   requires the-declared-strip-list: len(delHeaders) == 3 && delHeaders[0] == "True-Client-IP" && delHeaders[1] == "X-Real-IP" && delHeaders[2] == "X-Forwarded-For"
+//@   ghost deleted set[string]
+//@   ghost xf bool = false
+//@   ghost host string = ""
+//@   ghost hostSet bool = false
+//@   ghost protoSet bool = false
+//@   ghost fmtHost string = ""
+//@   ghost fmtOK bool = false
+//@   at call Del#1: assert strips-from-the-outbound-request-before-asserting-anything: callarg0 == out.Header && !xf && !hostSet && !protoSet
+//@   at call Del#1: ghost deleted := add(deleted, callarg1)
+//@   at call SetXForwarded#1: assert forwarded-headers-are-derived-from-the-connection-after-stripping: callarg0 == preq && deleted["True-Client-IP"] && deleted["X-Real-IP"] && deleted["X-Forwarded-For"] && !hostSet && !protoSet
+//@   at call SetXForwarded#1: ghost xf := true
+//@   at after call Sprintf#1: ghost fmtHost := callresult
+//@   at call Sprintf#1: assert host-with-the-gateway-port: callarg0 == "%s:%d" && len(callarg1) == 2 && cast(callarg1[0], "string") == out.URL.Host && cast(callarg1[1], "int") == g.GatewayPort
+//@   at call Sprintf#1: ghost fmtOK := true
+//@   at call Set#*: assert only-the-two-gateway-headers-are-set-on-the-outbound-request: callarg0 == out.Header && (callarg1 == "X-Forwarded-Host" || callarg1 == "X-Forwarded-Proto")
+//@   at call Set#*: assert host-is-asserted-by-the-gateway-after-the-library-default: callarg1 == "X-Forwarded-Host" ==> (xf && !protoSet && ((g.GatewayPort == 443 && callarg2 == out.URL.Host) || (g.GatewayPort != 443 && fmtOK && callarg2 == fmtHost)))
+//@   at call Set#*: assert proto-is-https-and-set-after-the-library-default: callarg1 == "X-Forwarded-Proto" ==> (xf && hostSet && callarg2 == "https")
+//@   at call Set#*: ghost hostSet := hostSet || callarg1 == "X-Forwarded-Host"
+//@   at call Set#*: ghost protoSet := protoSet || callarg1 == "X-Forwarded-Proto"
+//@   ensures local-client-ip-headers-are-stripped-and-forwarding-headers-asserted: deleted["True-Client-IP"] && deleted["X-Real-IP"] && deleted["X-Forwarded-For"] && xf && hostSet && protoSet
+//@   ensures the-asserted-host-has-no-port-of-its-own: out.Host == out.URL.Host
+//@   loop header: invariant stripped-so-far: -1 <= rangeindex && rangeindex < 3 && !xf && !hostSet && !protoSet && (forall j int :: (0 <= j && j <= rangeindex) ==> deleted[delHeaders[j]]) && len(delHeaders) == 3 && delHeaders[0] == "True-Client-IP" && delHeaders[1] == "X-Real-IP" && delHeaders[2] == "X-Forwarded-For" && out == preq.Out && in == preq.In
+
+// the package initializer gives the strip list its declared contents
+//@ func init()
+//@   safety off
+//@   opt frame=off
+//@   ensures strip-list-as-declared: len(delHeaders) == 3 && delHeaders[0] == "True-Client-IP" && delHeaders[1] == "X-Real-IP" && delHeaders[2] == "X-Forwarded-For"
+
+// ---- C37: the internal admin prefix. chi applies a group's middlewares, in registration order, to
+// everything registered on the group afterwards (assumed); what is proved is the registration order.
+//@ func (a *apexServer) Mount(r *chi.Mux)
+//@   safety off
+//@   opt frame=off
+//@   opt strings=abstract
+//@   ghost routed bool = false
+//@   at call Route#1: assert internal-prefix-only-with-both-credentials-configured: a.authUser != "" && a.authPass != "" && callarg1 == "/_internal"
+//@   at call Route#1: ghost routed := true
+//@   ensures local-without-credentials-the-prefix-is-not-served: (a.authUser == "" || a.authPass == "") ==> !routed
+
+//@ func (a *apexServer) Mount$1(r chi.Router)
+//@   safety off
+//@   opt frame=off
+//@   ghost ba func(http.Handler) http.Handler
+//@   ghost made bool = false
+//@   ghost authed bool = false
+//@   ghost proxied bool = false
+//@   at call BasicAuth#1: assert credentials-are-the-configured-pair: has(callarg1, a.authUser) && callarg1[a.authUser] == a.authPass
+//@   at after call BasicAuth#1: ghost ba := callresult
+//@   at after call BasicAuth#1: ghost made := true
+//@   at call Use#1: assert basic-auth-is-the-first-middleware: made && !authed && !proxied && len(callarg0) == 1 && callarg0[0] == ba
+//@   at call Use#1: ghost authed := true
+//@   at call Use#2: assert node-proxying-runs-behind-authentication: authed && !proxied && len(callarg0) == 1 && callarg0[0] == a.internalProxy
+//@   at call Use#2: ghost proxied := true
+//@   at call Mount#*: assert every-endpoint-is-registered-behind-both-middlewares: authed && proxied
+//@   at call HandleFunc#*: assert the-catch-all-is-registered-behind-both-middlewares: authed && proxied
+//@   ensures local-group-is-protected: authed && proxied
+
+// the node-proxy middleware itself: a request is either served locally or proxied, never both, and it is
+// proxied only when it names a node and is not already a proxied request (so a proxied request cannot loop)
+//@ func (g *Gateway) getInternalProxyHandler$4$1(w http.ResponseWriter, r *http.Request)
+//@   safety off
+//@   opt frame=off
+//@   ghost fwd string = ""
+//@   ghost addr string = ""
+//@   ghost local int = 0
+//@   ghost remote int = 0
+//@   at after call Get#1: ghost fwd := callresult
+//@   at after call Get#2: ghost addr := callresult
+//@   at call Get#1: assert reads-the-forwarded-marker: callarg1 == "x-internal-proxy-forwarded"
+//@   at call Get#2: assert reads-the-target-node-header: callarg1 == "x-internal-proxy-node-address"
+//@   at call ServeHTTP#1: ghost local := local + 1
+//@   at call WithNode#1: assert proxied-to-the-named-node: callarg1.Address == addr
+//@   at call ServeHTTP#2: ghost remote := remote + 1
+//@   ensures local-served-locally-xor-proxied: local + remote == 1
+//@   ensures local-proxied-only-when-a-node-is-named-and-not-already-forwarded: remote == 1 ==> (fwd == "" && addr != "")
+//@   ensures local-otherwise-served-locally: (fwd != "" || addr == "") ==> local == 1
+
+//@ func (g *Gateway) getInternalProxyHandler$2(preq *httputil.ProxyRequest)
+//@   safety off
+//@   opt frame=off
+//@   ghost marked bool = false
+//@   ghost dropped bool = false
+//@   at call Set#1: assert marks-the-request-as-forwarded: callarg1 == "x-internal-proxy-forwarded" && callarg2 == "true"
+//@   at call Set#1: ghost marked := true
+//@   at call Del#1: assert drops-the-node-address-header: callarg1 == "x-internal-proxy-node-address"
+//@   at call Del#1: ghost dropped := true
+//@   ensures local-forwarded-requests-are-marked-and-cannot-be-forwarded-again: marked && dropped
